@@ -810,7 +810,9 @@ open YashModel.Generated.ArithEvalTables in
 /-- ☆ `convert_error_cause` (the shell's glue) has one arm for every leaf variant of `yash_arith::ErrorCause`
     — the two token errors, the other syntax errors, the portability error, every evaluation error, in the
     order of the enums — so its fallback arm is dead with this yash-arith; and distinct causes become distinct
-    causes of the shell (nothing is merged, nothing becomes `Unrecognized`). -/
+    causes of the shell (nothing is merged, nothing becomes `Unrecognized`), each under its own name (two arms
+    cannot be swapped): `ArithError::<the same variant>`, except `NonPortableIncrementDecrement`, and the two
+    environment errors, which become the shell's own `UnsetParameter` / `AssignReadOnly`. -/
 theorem convert_error_cause_is_faithful :
     convertErrorCause.map (fun e => (e.1, e.2.1)) =
       tokenErrorVariants.map (fun v => ("SyntaxError", v)) ++
@@ -818,7 +820,84 @@ theorem convert_error_cause_is_faithful :
       portabilityErrorVariants.map (fun v => ("PortabilityError", v)) ++
       evalErrorVariants.map (fun v => ("EvalError", v)) ∧
     (convertErrorCause.map (·.2.2)).Nodup ∧
-    ("ArithError." ++ convertErrorCauseFallback) ∉ convertErrorCause.map (·.2.2) := by
+    ("ArithError." ++ convertErrorCauseFallback) ∉ convertErrorCause.map (·.2.2) ∧
+    (∀ e ∈ convertErrorCause, e.2.2 = "ArithError." ++ e.2.1 ∨
+      (e.2.1, e.2.2) ∈ [("IncrementDecrement", "ArithError.NonPortableIncrementDecrement"),
+        ("GetVariableError", "UnsetParameter"), ("AssignVariableError", "AssignReadOnly")]) := by
   decide
+
+/-! ## wave 3: one transcription of `eval_with_config` behind both legs -/
+
+/-- ☆ the evaluator of the shell leg (`evalStrG`, `eval.rs` over the `Env` trait, with the cause of a failure)
+    instantiated with the `HashMap` environment IS the evaluator of the direct leg (`evalStr` /
+    `evalStrPortable`): same value and final variables, and the same `ErrorCause` group and variant — so the
+    `S` lines and the `E`/`P` lines exercise one transcription of `eval_with_config`, not two. -/
+theorem shell_evaluator_is_evalStr (portable : Bool) (src : List Char) (env : Env) :
+    evalStrG hashMapI portable src env =
+      (match (if portable then evalStrPortable src env else some (evalStr src env)) with
+        | none => .error .portability
+        | some (.value v env') => .ok (v, env')
+        | some (.syntaxError e) => .error (.syntax e)
+        | some (.evalError e) => .error (.eval e)
+        | some .panic => .error .modelPanic
+        | some .fuel => .error .modelPanic) := by
+  unfold evalStrG evalStrPortable evalStr
+  simp only [evalValueG_hashMap]
+  cases hp : parse src with
+  | error e => cases portable <;> simp
+  | ok ast =>
+    cases portable with
+    | false =>
+      simp only [Bool.false_and, Bool.false_eq_true, if_false]
+      cases hv : evalValue ast env with
+      | ok r => obtain ⟨v, e⟩ := r; simp [Outcome.ofRes]
+      | error e => simp [Outcome.ofRes]
+      | panic => simp [Outcome.ofRes]
+      | fuel => simp [Outcome.ofRes]
+    | true =>
+      simp only [Bool.true_and, if_true]
+      by_cases hi : ast.any isIncDec = true
+      · simp [hi]
+      · simp only [hi, if_false, Bool.false_eq_true]
+        cases hv : evalValue ast env with
+        | ok r => obtain ⟨v, e⟩ := r; simp [Outcome.ofRes]
+        | error e => simp [Outcome.ofRes]
+        | panic => simp [Outcome.ofRes]
+        | fuel => simp [Outcome.ofRes]
+
+
+example : (evalStrG hashMapI true "1 ? 2 : x++".toList []).toOption = none ∧
+    evalStrPortable "1 ? 2 : x++".toList [] = none ∧
+    evalStr "x = 1 / 0".toList [] = .evalError .divisionByZero ∧
+    (evalStrG hashMapI false "x = 7".toList []).toOption = some (7, [(['x'], ['7'])]) := by decide +kernel
+
+/-- ☆ the shell leg never reports a token error without its kind: whenever the evaluator of the expanded text
+    `t` answers `TokenError` — with any environment behind the `Env` trait — `refineTokenErr` finds the kind in
+    `t`, and it is the kind the direct leg's `evalStrCause` reports for that text. -/
+theorem shell_token_error_is_named {σ : Type} (I : EnvI σ) (portable : Bool) (t : List Char) (s : σ)
+    (h : evalStrG I portable t s = .error (.syntax .tokenError)) :
+    ∃ k, refineTokenErr t (.syntax .tokenError) = .token k ∧
+      ∀ env, evalStrCause portable t env = some (.token k) := by
+  have hp : parse t = .error .tokenError := by
+    unfold evalStrG at h
+    cases hq : parse t with
+    | error e => rw [hq] at h; simp only [Except.error.injEq, ShErr.syntax.injEq] at h; rw [h]
+    | ok ast =>
+      rw [hq] at h
+      simp only at h
+      split at h
+      · simp at h
+      · split at h <;> simp at h
+  obtain ⟨k, hk⟩ := (token_error_has_a_kind [] t).1 (by rw [parseU_nil]; exact hp)
+  refine ⟨k, by simp [refineTokenErr, hk], fun env => ?_⟩
+  unfold evalStrCause evalStrPortable evalStr
+  rw [hp]
+  cases portable <;> simp [outcomeCause, hk]
+
+
+example : (match evalStrG shellI false "1 + 08".toList { ctxs := [[]], nounset := false, portable := false } with
+      | .error (.syntax .tokenError) => true | _ => false) = true ∧
+    refineTokenErr "1 + 08".toList (.syntax .tokenError) = .token .invalidNumericConstant ∧
+    refineTokenErr "1 + #".toList (.syntax .tokenError) = .token .invalidCharacter := by decide +kernel
 
 end YashModel.Arith
